@@ -585,6 +585,15 @@ func (fr *Frame) evalCall(e *CExpr, env *Env, hint *Sort) *GVal {
 			return tv(g.Fresh)
 		}
 		return tv(TFalse)
+	case "theFunctionTable":
+		if t := ex.p.functionTable(); t != nil {
+			return tv(t)
+		}
+	case "intrOf":
+		x := arg(0, SVal)
+		if obj := ex.p.pkg.Pkg.Scope().Lookup("treeInterpreter"); obj != nil {
+			return &GVal{T: App("vintr", SInt, x), Typ: types.NewPointer(obj.Type())}
+		}
 	case "mapHas":
 		m := arg(0, nil)
 		if mi := w.MapInfoOfSort(m.S); mi != nil {
